@@ -426,6 +426,26 @@ def run(ctx):
     ctx.count('stat:coins')
     if abs(coins - Tm / 2) > hoeff(Tm, 1):
         ctx.fail('stabilizer_measure', 'measurement coins are not fair (%d of %d)' % (coins, Tm), dict(T=Tm))
+    # coins of one call are independent: joint distribution of several undetermined outcomes measured in ONE call, pure and mixed
+    # inputs (a logical operator of a mixed state is undetermined too); exact tail bound per cell
+    Tj = 2400
+    for name_, mk, obs_, cells in (('|++> measured in (ZI, IZ)', lambda: pc.stabilizer_state('XI', 'IX'), ['ZI', 'IZ'], 4),
+                                   ('|+++> measured in (ZII, IZI, IIZ)', lambda: pc.stabilizer_state('XII', 'IXI', 'IIX'), ['ZII', 'IZI', 'IIZ'], 8),
+                                   ('maximally mixed pair measured in (ZI, IZ)', lambda: pc.maximally_mixed_state(2), ['ZI', 'IZ'], 4),
+                                   ('maximally mixed pair measured in (XX)', lambda: pc.maximally_mixed_state(2), ['XX'], 2),
+                                   ('stabilizer_state(ZZ) measured in (XX)', lambda: pc.stabilizer_state('ZZ'), ['XX'], 2),
+                                   ('stabilizer_state(ZZI, IZZ) measured in (ZII)', lambda: pc.stabilizer_state('ZZI', 'IZZ'), ['ZII'], 2)):
+        hist = {}
+        for _ in range(Tj):
+            st = mk()
+            out, lp = st.measure(pc.paulis(*obs_))
+            k_ = tuple(int(v) for v in out)
+            hist[k_] = hist.get(k_, 0) + 1
+        ctx.count('stat:joint-coins')
+        ctx.case(('joint-coins', name_), True, sample=dict(op='joint outcome distribution', case=name_, cells=cells, histogram={str(k): v for k, v in hist.items()}))
+        if len(hist) != cells or any(abs(v - Tj / cells) > hoeff(Tj, cells) for v in hist.values()):
+            ctx.fail('stabilizer_measure', 'undetermined outcomes of one call are not independent fair coins: %s gives %s over %d runs (every one of the %d readouts has Born probability 1/%d)'
+                     % (name_, {''.join(map(str, k)): v for k, v in sorted(hist.items())}, Tj, cells, cells), dict(case=name_, T=Tj))
     gate = CI.CliffordGate(0, 1)
     seen = set()
     for _ in range(64):
